@@ -7,7 +7,8 @@ dump of the addressed side (everything `Tcb::verif_snapshot` shows).
 
 Ops (numbers decimal, side `A` or `B`):
 `open X iss mtu` · `listen X iss mtu` · `write X len seed` · `writehex X hex` · `read X` ·
-`tick X ms` · `emit X` · `deliver X i` · `inject X ctl seq ack wnd len seed` · `close X` ·
+`tick X ms` · `emit X` · `deliver X i` · `inject X ctl seq ack wnd len seed` ·
+`injecthex X ctl seq ack wnd hex` · `close X` ·
 `abort X` · `drop X`.
 
 Large byte strings are printed as `len:fnv1a64`; in the state dump buffers longer than 64 bytes
@@ -120,6 +121,10 @@ def parseOp : List String → Option Op
     let sd ← parseSide x
     pure (.inject sd (forge sd ((← ctl.toNat?) % 64) (← seq.toNat?) (← ack.toNat?) (← wnd.toNat?)
       (genBytes (← len.toNat?) (← seed.toNat?))))
+  | ["injecthex", x, ctl, seq, ack, wnd, h] => do
+    let sd ← parseSide x
+    pure (.inject sd (forge sd ((← ctl.toNat?) % 64) (← seq.toNat?) (← ack.toNat?) (← wnd.toNat?)
+      (← Driver.parseHex h)))
   | ["close", x] => do pure (.close (← parseSide x))
   | ["abort", x] => do pure (.abort (← parseSide x))
   | ["drop", x] => do pure (.drop (← parseSide x))
